@@ -22,6 +22,7 @@ import AutomataVerif.Proofs.Partial
 import AutomataVerif.Proofs.MinCompose
 import AutomataVerif.Proofs.Expr
 import AutomataVerif.Proofs.MinGlue
+import AutomataVerif.Model.DFAOperators
 
 namespace AV.Props.C04
 open AV AV.DFA
@@ -732,6 +733,131 @@ theorem C04_complement_min_full_holds : C04_complement_min_full :=
 theorem C04_to_partial_min_full_holds : C04_to_partial_min_full :=
   (C04_min_of_C05 minifyGuarantee).2.2
 
+/-- **Boolean operations, `retain_names=False, minify=True` — the DEFAULT options.**  The
+minimised product renamed by counter values is a valid duplicate-free DFA over the operands'
+alphabet with exactly the set-operation language.  (Order of the two steps: the code renames
+the product states while it expands them, minimises, and names the classes by `enumerate`;
+the model minimises the product and renumbers the classes.  Both name the same classes by
+`0, 1, …` in an order that depends on set iteration, so the two results are isomorphic —
+the correspondence compares them up to isomorphism — and validity, alphabet and language,
+which is all this theorem states, are invariant under it.) -/
+theorem C04_binop_min_renumbered (op : BinOp) (A B : AV.DFA σ α) (pick : List Nat → Nat)
+    (hA : A.validate = .ok ()) (hB : B.validate = .ok ()) (pA : A.PyShape) (hs : A.symsEq B = true) :
+    ∃ M, A.binopMin op B pick = .ok M ∧ M.renumber.validate = .ok () ∧ M.renumber.PyShape ∧
+      M.renumber.syms = A.syms ∧
+      ∀ w, M.renumber.accepts w = op.fin (A.accepts w) (B.accepts w) := by
+  obtain ⟨M, hM, hv, hp, hsy, hl⟩ := C04_binop_min op A B pick hA hB pA hs
+  obtain ⟨h1, h2, h3, _, h5⟩ :=
+    C04_renumber M hv hp (fun k hk => by rw [← binopMin_keys hM]; exact hk)
+  exact ⟨M, hM, h1, h2, h3.trans hsy, fun w => (h5 w).trans (hl w)⟩
+
+/-- **Complement with the default options** (`retain_names=False, minify=True`). -/
+theorem C04_complement_min_renumbered (d : AV.DFA σ α) (trap : σ) (pick : List Nat → Nat)
+    (hd : d.validate = .ok ()) (pd : d.PyShape) (ht : trap ∉ d.states) :
+    ∃ M, d.complementMinFull trap pick = .ok M ∧ M.renumber.validate = .ok () ∧
+      M.renumber.PyShape ∧ M.renumber.syms = d.syms ∧
+      ∀ w, M.renumber.accepts w = ((w.all fun a => decide (a ∈ d.syms)) && !d.accepts w) := by
+  obtain ⟨M, hM, hv, hp, hsy, hl⟩ := C04_complement_min d trap pick hd pd ht
+  obtain ⟨h1, h2, h3, _, h5⟩ :=
+    C04_renumber M hv hp (fun k hk => by rw [← complementMinFull_keys hM]; exact hk)
+  exact ⟨M, hM, h1, h2, h3.trans hsy, fun w => (h5 w).trans (hl w)⟩
+
+/-- **All four option combinations of a Boolean operation at once** (`binopOpts`,
+Model/DFAOperators.lean): the call succeeds and, whatever the state type of the result, it is
+a valid duplicate-free DFA over the operands' alphabet with the set-operation language. -/
+theorem C04_binop_all_options (op : BinOp) (A B : AV.DFA σ α) (retain minify : Bool)
+    (pick : List Nat → Nat)
+    (hA : A.validate = .ok ()) (hB : B.validate = .ok ()) (pA : A.PyShape) (hs : A.symsEq B = true) :
+    (∃ R, binopOpts op A B retain minify pick = .ok (.named R) ∧ R.validate = .ok () ∧ R.PyShape ∧
+      R.syms = A.syms ∧ ∀ w, R.accepts w = op.fin (A.accepts w) (B.accepts w)) ∨
+    (∃ R, binopOpts op A B retain minify pick = .ok (.blocks R) ∧ R.validate = .ok () ∧ R.PyShape ∧
+      R.syms = A.syms ∧ ∀ w, R.accepts w = op.fin (A.accepts w) (B.accepts w)) ∨
+    (∃ R, binopOpts op A B retain minify pick = .ok (.numbered R) ∧ R.validate = .ok () ∧ R.PyShape ∧
+      R.syms = A.syms ∧ ∀ w, R.accepts w = op.fin (A.accepts w) (B.accepts w)) := by
+  cases minify <;> cases retain
+  · obtain ⟨R, hR, h⟩ := C04_binop_renumbered op A B hA hB pA hs
+    exact Or.inr (Or.inr ⟨R.renumber, by simp [binopOpts, hR, Except.map], h⟩)
+  · obtain ⟨R, hR, hv, hp, hsy, _⟩ := C04_binop_valid op A B hA hB pA hs
+    obtain ⟨R', hR', hl⟩ := C04_binop_lang op A B hA hB pA hs
+    have : R' = R := by rw [hR] at hR'; cases hR'; rfl
+    subst this
+    exact Or.inl ⟨R', by simp [binopOpts, hR, Except.map], hv, hp, hsy, hl⟩
+  · obtain ⟨M, hM, h⟩ := C04_binop_min_renumbered op A B pick hA hB pA hs
+    exact Or.inr (Or.inr ⟨M.renumber, by simp [binopOpts, hM, Except.map], h⟩)
+  · obtain ⟨M, hM, h⟩ := C04_binop_min op A B pick hA hB pA hs
+    exact Or.inr (Or.inl ⟨M, by simp [binopOpts, hM, Except.map], h⟩)
+
+/-- **The operators `| & - ^`.**  `DFA.operator op` (Model/DFAOperators.lean) is what the
+source makes of the operator: the `return self.<method>(other, …)` of `__or__` / `__and__` /
+`__sub__` / `__xor__` with the keyword defaults of that method, both read from the tables
+regenerated from automata/fa/dfa.py.  With the source as it is, that is the method with
+`retain_names=False, minify=True`, and the result is a valid duplicate-free DFA over the
+operands' alphabet with exactly the set-operation language.  If a default or the called
+method changes in the source, the regenerated tables change and this proof breaks. -/
+theorem C04_operators (op : BinOp) (A B : AV.DFA σ α) (pick : List Nat → Nat)
+    (hA : A.validate = .ok ()) (hB : B.validate = .ok ()) (pA : A.PyShape) (hs : A.symsEq B = true) :
+    operator op A B pick = binopOpts op A B false true pick ∧
+    ∃ R, operator op A B pick = .ok (.numbered R) ∧ R.validate = .ok () ∧ R.PyShape ∧
+      R.syms = A.syms ∧ ∀ w, R.accepts w = op.fin (A.accepts w) (B.accepts w) := by
+  have h0 : operator op A B pick = binopOpts op A B false true pick := by
+    cases op <;> rfl
+  refine ⟨h0, ?_⟩
+  obtain ⟨M, hM, h⟩ := C04_binop_min_renumbered op A B pick hA hB pA hs
+  exact ⟨M.renumber, by rw [h0]; simp [binopOpts, hM, Except.map], h⟩
+
+/-- The four operators by name. -/
+theorem C04_or_and_sub_xor (A B : AV.DFA σ α) (pick : List Nat → Nat)
+    (hA : A.validate = .ok ()) (hB : B.validate = .ok ()) (pA : A.PyShape) (hs : A.symsEq B = true) :
+    (∃ R, A.or B pick = .ok (.numbered R) ∧ R.validate = .ok () ∧
+      ∀ w, R.accepts w = (A.accepts w || B.accepts w)) ∧
+    (∃ R, A.and B pick = .ok (.numbered R) ∧ R.validate = .ok () ∧
+      ∀ w, R.accepts w = (A.accepts w && B.accepts w)) ∧
+    (∃ R, A.sub B pick = .ok (.numbered R) ∧ R.validate = .ok () ∧
+      ∀ w, R.accepts w = (A.accepts w && !B.accepts w)) ∧
+    (∃ R, A.xor B pick = .ok (.numbered R) ∧ R.validate = .ok () ∧
+      ∀ w, R.accepts w = (Bool.xor (A.accepts w) (B.accepts w))) := by
+  refine ⟨?_, ?_, ?_, ?_⟩
+  · obtain ⟨R, h1, h2, _, _, h5⟩ := (C04_operators .union A B pick hA hB pA hs).2
+    exact ⟨R, h1, h2, h5⟩
+  · obtain ⟨R, h1, h2, _, _, h5⟩ := (C04_operators .inter A B pick hA hB pA hs).2
+    exact ⟨R, h1, h2, h5⟩
+  · obtain ⟨R, h1, h2, _, _, h5⟩ := (C04_operators .diff A B pick hA hB pA hs).2
+    exact ⟨R, h1, h2, h5⟩
+  · obtain ⟨R, h1, h2, _, _, h5⟩ := (C04_operators .symm A B pick hA hB pA hs).2
+    exact ⟨R, h1, h2, h5⟩
+
+/-- **The operator `~`**: `complement()` with the source's defaults (`retain_names=False,
+minify=True`), complement relative to `Σ*`. -/
+theorem C04_invert (d : AV.DFA σ α) (trap : σ) (pick : List Nat → Nat)
+    (hd : d.validate = .ok ()) (pd : d.PyShape) (ht : trap ∉ d.states) :
+    invert d trap pick = complementOpts d trap false true pick ∧
+    ∃ R, invert d trap pick = .ok (.numbered R) ∧ R.validate = .ok () ∧ R.PyShape ∧
+      R.syms = d.syms ∧
+      ∀ w, R.accepts w = ((w.all fun a => decide (a ∈ d.syms)) && !d.accepts w) := by
+  have h0 : invert d trap pick = complementOpts d trap false true pick := rfl
+  refine ⟨h0, ?_⟩
+  obtain ⟨M, hM, h⟩ := C04_complement_min_renumbered d trap pick hd pd ht
+  exact ⟨M.renumber, by rw [h0]; simp [complementOpts, hM, Except.map], h⟩
+
+/-- The regenerated source facts the operator model reads: every operator returns exactly one
+call `self.<method>(other)` without keyword arguments, and the keyword defaults of all
+option-taking DFA methods are `retain_names=False`, `minify=True`. -/
+theorem C04_operator_table :
+    Gen.DfaDefaults.operators =
+      [("__or__", "union", [], 1, []), ("__and__", "intersection", [], 1, []),
+       ("__sub__", "difference", [], 1, []), ("__xor__", "symmetric_difference", [], 1, []),
+       ("__invert__", "complement", [], 0, [])] ∧
+    Gen.DfaDefaults.defaults =
+      [("union", "retain_names", false), ("union", "minify", true),
+       ("intersection", "retain_names", false), ("intersection", "minify", true),
+       ("difference", "retain_names", false), ("difference", "minify", true),
+       ("symmetric_difference", "retain_names", false), ("symmetric_difference", "minify", true),
+       ("complement", "retain_names", false), ("complement", "minify", true),
+       ("to_partial", "retain_names", false), ("to_partial", "minify", true),
+       ("from_nfa", "retain_names", false), ("from_nfa", "minify", true),
+       ("minify", "retain_names", false)] :=
+  ⟨rfl, rfl⟩
+
 /-- **Closure of the `minify=True` operations**: operands that are valid DFAs over `Sg` with
 languages `LA`, `LB` give valid DFAs over `Sg` with the set-operation language / the
 complement relative to `Sg*` / the same language — so `minify=True` results can be operands
@@ -778,5 +904,16 @@ example : ∃ R, exEm.eval freshNat (fun _ => 0) = .ok R ∧ Sem R [0, 1] (exEm.
     ⟨⟨exA_leafOk, exB_leafOk⟩, ⟨exA_leafOk, exB_leafOk⟩⟩
 example : (exEm.denote [0, 1] [1], exEm.denote [0, 1] [0, 0], exEm.denote [0, 1] [1, 0, 1],
     exEm.denote [0, 1] [1, 7]) = (false, true, true, false) := by decide
+
+-- the operators on the running examples: default options, counter names
+example : (match exA.or exB (fun _ => 0) with
+    | .ok (.numbered R) => (R.states.length, R.accepts [1], R.accepts [0, 0])
+    | _ => (0, false, false)) =
+    (match exA.binopMin .union exB (fun _ => 0) with
+    | .ok M => (M.states.length, M.accepts [1], M.accepts [0, 0])
+    | .error _ => (1, false, false)) := by decide
+example : (match invert exA 2 (fun _ => 0) with
+    | .ok (.numbered R) => (R.accepts [1], R.accepts [0], R.accepts [7])
+    | _ => (true, false, true)) = (!exA.accepts [1], !exA.accepts [0], false) := by decide
 
 end AV.Props.C04
